@@ -22,7 +22,7 @@
 (*   [k |-> "while", c, body]    begin c while body repeat                 *)
 (*   [k |-> "get"|"put"|"inc"]   variable x @ / x ! / x +!                 *)
 (*   [k |-> "call"]              the user-defined word f (body = Def)      *)
-(*   [k |-> "read", ty]          data <ty>-> stack   (b B h !h)            *)
+(*   [k |-> "read", ty]          data <ty>-> stack   (b B h !h H !H varint zigzag) *)
 (*   [k |-> "in", w]             data len | pos | end | seek | skip        *)
 (*   [k |-> "write"|"writeadd"|"outlen"|"rewind"]   output y (int32)       *)
 (* Numbers stay small in the enumerated programs, so no wrap-around occurs *)
@@ -152,7 +152,27 @@ U8(k) == Input[k + 1]
 S8(k) == IF U8(k) >= 128 THEN U8(k) - 256 ELSE U8(k)
 U16(k, big) == IF big THEN 256 * U8(k) + U8(k + 1) ELSE U8(k) + 256 * U8(k + 1)
 S16(k, big) == IF U16(k, big) >= 32768 THEN U16(k, big) - 65536 ELSE U16(k, big)
+\* variable-length integers (LEB128) and their zigzag-signed form.  TLC's integers are 32-bit: the value is assembled from a
+\* 28-bit low limb (bytes 1-4) and the 5th byte; encodings longer than 5 bytes, or whose value leaves the 32-bit range on
+\* either machine width, are not exported ("FUEL").
+VarScan(pos) == LET RECURSIVE go(_)
+                    go(k) == IF pos + k >= Len(Input) THEN -1 ELSE IF U8(pos + k) < 128 THEN k + 1 ELSE go(k + 1)
+                IN go(0)
+VarRead(S, zig) ==
+  LET nb == VarScan(S.pos) IN
+  IF nb = -1 THEN Fail([S EXCEPT !.pos = Len(Input)], "read_beyond")
+  ELSE IF nb > 5 THEN Fail(S, "FUEL")
+  ELSE LET b(k) == IF k < nb THEN U8(S.pos + k) % 128 ELSE 0
+           low == b(0) + 128 * b(1) + 16384 * b(2) + 2097152 * b(3)
+           hi == b(4)
+           S2 == [S EXCEPT !.pos = @ + nb]
+       IN IF hi > 15 \/ (~zig /\ hi > 7) THEN Fail(S, "FUEL")
+          ELSE LET v == IF ~zig THEN hi * 268435456 + low
+                        ELSE IF low % 2 = 0 THEN hi * 134217728 + low \div 2
+                        ELSE (-(hi * 134217728 + low \div 2)) - 1
+               IN IF N(S) + 1 > StackMax THEN Fail(S2, "stack_overflow") ELSE Push(S2, v)
 Read(S, ty) ==
+  IF ty \in {"varint", "zigzag"} THEN VarRead(S, ty = "zigzag") ELSE
   LET width == IF ty \in {"b", "B"} THEN 1 ELSE 2 IN
   IF S.pos + width > Len(Input) THEN Fail(S, "read_beyond")
   ELSE LET v == CASE ty = "b" -> S8(S.pos) [] ty = "B" -> U8(S.pos)
